@@ -37,6 +37,11 @@ PRELUDE = [
 ]
 
 
+def inc_name(k):
+    """names of included files differ only in letter case (file names are arbitrary keys of the file map, compared exactly)"""
+    return ("inc", "Inc", "INC", "iNc", "inC", "InC")[k % 6] + ("" if k < 6 else str(k))
+
+
 class Gen:
     PROFILES = {
         # statement weights: assign, loop, while, jump, stop, macro
@@ -413,7 +418,7 @@ def render_canon(prog, r, nfiles=0, spell=True):
         i = r.randrange(len(hl))
         j = r.randint(i + 1, min(len(hl), i + 1 + max(1, len(hl) // 2)))
         # never move an include line's host position inconsistently: includes are ordinary lines here
-        name = "inc%d" % (k + 1)
+        name = inc_name(k)
         files[name] = hl[i:j]
         hl[i:j] = [['%s "%s"' % (kw("INCLUDE"), name), []]]
         order.append(name)
@@ -508,7 +513,7 @@ def render_free(prog, r, nfiles=0, lib_in_file=True, style="normal"):
             continue
         i = r.randrange(len(hl))
         j = r.randint(i + 1, min(len(hl), i + 1 + max(1, len(hl) // 2)))
-        name = "inc%d" % (k + 1)
+        name = inc_name(k)
         pieces[name] = hl[i:j]
         hl[i:j] = [("include", name)]
         order.append(name)
